@@ -19,8 +19,12 @@ UnAll  == {"-", "+", "~", "not"}
 \* names that a sloppy lexer splits or rejects: keyword-prefixed, with digits and underscores
 TrickyNames == {"not_x", "not1", "or_1", "and2", "if_", "else_9", "note", "iffy", "orb", "Truex",
                 "Nonesuch", "_y", "x_1", "a_b"}
-IsSlot(t) == t \in {"?B", "?b", "?U", "?N"}
+\* spellings of numeric literals (values in C07_Parser's FloatTable)
+LiteralToks == {"2.", ".5", "1e3", "1e+3", "1E+3", "2e+2", "12e+0", "25e-2", "5e-1", "2.5e+1", ".5e+1", "2.e1",
+                "1.5E1", "0e0", "30", "0"}
+IsSlot(t) == t \in {"?B", "?b", "?U", "?N", "?L"}
 PoolFor(t) == CASE t = "?B" -> BinAll [] t = "?b" -> BinRed [] t = "?U" -> UnAll [] t = "?N" -> TrickyNames
+                [] t = "?L" -> LiteralToks
 
 Skeletons2 == {
   << "a", "?B", "b", "?B", "c" >>,
@@ -69,7 +73,9 @@ Skeletons2 == {
   << "t", "[", "(", "a", ",", "b", ")", ",", "c", "]" >>,
   \* literals
   << "2", "?B", "3" >>, << "1.5", "?B", "a" >>, << "True", "?B", "a" >>, << "a", "?B", "False" >>,
-  << "?U", "2", "?B", "a" >>, << "2", "**", "?U", "1" >>, << "a", "**", "?U", "b", "**", "c" >>
+  << "?U", "2", "?B", "a" >>, << "2", "**", "?U", "1" >>, << "a", "**", "?U", "b", "**", "c" >>,
+  << "?L" >>, << "?L", "?b", "a" >>, << "a", "?b", "?L" >>, << "?U", "?L" >>, << "f", "(", "?L", ")" >>,
+  << "t", "[", "?L", "]" >>, << "(", "a", ")", "?b", "?L" >>, << "?L", "if", "a", "else", "?L" >>
 }
 Skeletons3 == {
   << "a", "?b", "b", "?b", "c", "?b", "d" >>
